@@ -107,10 +107,49 @@ def build_setop(w):
                           'implies(%s and j2 < len(ARMS(rel)), len(%s.target_list) >= 1 and %s in %s.path_outputs)' % (ALLNULL('len(outputs)'), ARM('j2'), KEY('j2'), ARM('j2'))])},
         hints={'var_types': {'test_vals': 'Seq[Opt[Obj]]', 'first': 'Opt[OutVar]'}})
 
+    # ---- has_rvar: "is this range variable already part of the statement's FROM clause" -- relctx.include_specific_rvar relies on it not to join a range
+    # variable twice (two FROM items with one alias are an error / make every reference ambiguous): both the normal and the packed map count
+    w.refclass('RVar', {}); w.ufunc('RVM', ['Query', 'str'], 'Map[Tuple[PathId,Aspect],RVar]')
+    w.ext_methods['Query.get_rvar_map'] = dict(params={'flavor': 'str'}, returns='Map[Tuple[PathId,Aspect],RVar]', returns_expr='RVM(self, flavor)')
+    w.ext_methods['Query.maybe_get_rvar_map'] = dict(params={'flavor': 'str'}, returns='Opt[Map[Tuple[PathId,Aspect],RVar]]',
+        ensures=['implies(not is_none(result), some(result) == RVM(self, flavor))', 'implies(is_none(result), len(RVM(self, flavor)) == 0)'])
+    INMAP = lambda fl: '(rvar in RVM(stmt, "%s").values())' % fl
+    w.contract(PATHCTX, 'has_rvar', params={'stmt': 'Query', 'rvar': 'RVar'}, returns='bool', pure=True,
+        ensures=['result == (%s or %s)' % (INMAP('normal'), INMAP('packed'))])
+
+    # ---- A'': parameters the query text does not mention are still declared to PostgreSQL with their argmap number and type (the `__unused_vars` CTE of
+    # clauses.fini_toplevel) -- exactly the PHYSICAL parameters (a tuple container has no number of its own; its decoded sub-parameters do)
+    w.refclass('PRef', {'number': 'int'}); w.refclass('Stmt', {})
+    w.ufunc('TNUM', ['Obj'], 'int')          # the parameter number a `($n)::type` result target refers to
+    w.ext_funcs['scan_check_ctes'] = dict(params={'stmt': 'Stmt', 'check_ctes': 'Obj', 'ctx': 'Ctx'}, returns='none')
+    w.ext_funcs['insert_ctes'] = dict(params={'stmt': 'Stmt', 'ctx': 'Ctx'}, returns='none')
+    w.ext_funcs['ast_visitor.find_children'] = dict(params={'node': 'Stmt', 'type': 'Obj'}, returns='Seq[PRef]')
+    w.ext_funcs['pgast.ResTarget'] = dict(params={'val': 'Obj'}, returns='Obj', ensures=['TNUM(result) == pnum(val)'])
+    w.ext_funcs['pgast.CommonTableExpr'] = dict(params={'name': 'str', 'query': 'Obj'}, returns='Obj')
+    w.ext_funcs['pgast.SelectStmt'] = dict(params={'target_list': 'Seq[Obj]'}, returns='Obj')
+    w.ext_methods['Stmt.append_cte'] = dict(params={'cte': 'Obj'}, returns='none')
+    w.classes['Env']['check_ctes'] = 'Obj'
+    QP = 'ctx.env.query_params'
+    IDXJ = 'ctx.argmap[%s[j].name].index' % QP
+    w.contract(CLAUSES, 'fini_toplevel', params={'stmt': 'Stmt', 'ctx': 'Ctx'}, ghost={'own': 'Fun[int,int]'}, returns='none',
+        requires=['forall(0, len(%s), lambda j: %s[j].name in ctx.argmap)' % (QP, QP), 'is_none(ctx.env.named_param_prefix)'],      # (positional parameters: the mode in which the CTE is built)
+        ensures=['('
+                 # coverage: every physical parameter that the text does not use is declared ...
+                 'forall(0, len(%s), lambda j: implies(PHYS(%s[j]) and not (%s in used), exists(0, len(targets), lambda k: TNUM(targets[k]) == %s))) and '
+                 # ... and nothing else is: each declared target belongs to an unused physical parameter (witness: own[k])
+                 'forall(0, len(targets), lambda k: 0 <= own[k] and own[k] < len(%s) and PHYS(%s[own[k]]) and TNUM(targets[k]) == ctx.argmap[%s[own[k]].name].index))' % (QP, QP, IDXJ, IDXJ, QP, QP, QP)],
+        raises={'KeyError': dict(only_if='False')},
+        ghost_after={'targets.append(pgast.ResTarget(val=pgast.TypeCast(arg=pgast.ParamRef(number=pgparam.index), type_name=pgast.TypeName(name=pg_types.pg_type_from_ir_typeref(param.ir_type)))))':
+                     [('own', 'fun_set(own, len(targets) - 1, i)')]},
+        loops={0: dict(fingerprint='for param in ctx.env.query_params', index='i', invariant=[
+                   'forall(0, i, lambda j: implies(PHYS(%s[j]) and not (%s in used), exists(0, len(targets), lambda k: TNUM(targets[k]) == %s)))' % (QP, IDXJ, IDXJ),
+                   'forall(0, len(targets), lambda k: 0 <= own[k] and own[k] < i and PHYS(%s[own[k]]) and TNUM(targets[k]) == ctx.argmap[%s[own[k]].name].index)' % (QP, QP)])},
+        hints={'var_types': {'targets': 'Seq[Obj]', 'used': 'Set[int]'}, 'ghost_out': ['own']})
+
 def build():
     w = World('C13')
     w.refclass('Obj', {}, universal=True)
-    w.rec('Param', [('name', 'str'), ('required', 'bool'), ('sub_params', 'Opt[Obj]')], IRAST, 'Param')
+    w.rec('Param', [('name', 'str'), ('required', 'bool'), ('sub_params', 'Opt[Obj]'), ('ir_type', 'Obj')], IRAST, 'Param')
     w.rec('Global', [('name', 'str'), ('required', 'bool'), ('has_present_arg', 'bool')], IRAST, 'Global')
     w.rec('PgParam', [('index', 'int'), ('required', 'bool'), ('logical_index', 'int')], PGAST, 'Param')
     w.refclass('Env', {'named_param_prefix': 'Opt[Obj]', 'query_params': 'Seq[Param]'})
@@ -186,7 +225,7 @@ def build():
     w.ufunc('pnum', ['Obj'], 'int')        # the PostgreSQL parameter number an expression tree refers to (through type casts)
     w.ufunc('is_paramref', ['Obj'], 'bool')
     w.trusted.append('pgast node constructors are outside reach: ParamRef(number=n) is an object r with pnum(r) == n; TypeCast(arg=a) refers to the same parameter as a')
-    w.ext_funcs['pgast.ParamRef'] = dict(params={'number': 'int', 'nullable': 'bool'}, returns='Obj', ensures=['pnum(result) == number', 'is_paramref(result)'])
+    w.ext_funcs['pgast.ParamRef'] = dict(params={'number': 'int', 'nullable': 'bool'}, optional=('nullable',), returns='Obj', ensures=['pnum(result) == number', 'is_paramref(result)'])
     w.ext_funcs['pgast.TypeCast'] = dict(params={'arg': 'Obj', 'type_name': 'Obj'}, returns='Obj', ensures=['pnum(result) == pnum(arg)', 'is_paramref(result) == is_paramref(arg)'])
     w.ext_funcs['pgast.TypeName'] = dict(params={'name': 'Obj'}, returns='Obj')
     w.ext_funcs['pgast.ColumnRef'] = dict(params={'name': 'Obj', 'nullable': 'bool'}, returns='Obj', ensures=['not is_paramref(result)'])
